@@ -269,7 +269,13 @@ fn encode<'t, T>(
                     grouping.push_str(pattern, "(?s:.*)");
                     pattern.push(')');
                 },
-                ((true, true), Wildcard(Tree { .. })) => grouping.push_str(pattern, "(?s:.*)"),
+                ((true, true), Wildcard(Tree { has_root: false })) => {
+                    grouping.push_str(pattern, "(?s:.*)")
+                },
+                // A rooted tree wildcard only matches rooted paths.
+                ((true, true), Wildcard(Tree { has_root: true })) => {
+                    grouping.push_str(pattern, sepexpr!("{0}(?s:.*)"))
+                },
             },
             TokenTopology::Branch(branch) => match branch {
                 Alternation(alternation) => {
